@@ -151,7 +151,7 @@ def olc_side(rule, what='the olc_db instantiation'):
 
 KEYBUF = ('unodb::detail::key_buffer',)
 ORD_RANGE = R(lambda cfg: find.ord1(cfg, mode='range'))
-SEQ_POINT = [R(point.noeff1), R(point.keyeq1), R(find.find1), ORD_RANGE, R(slot.slot1), R(point.pair1), R(point.copy1), R(lambda cfg: point.desc1(cfg, which='point')), R(prefix.pfx1), R(prefix.pfx2), R(prefix.pfx3), R(lambda cfg: point.type1(cfg, which='point')), R(lambda cfg: nodes.mut1(cfg, parts=('count', 'clear'))), R(nodes.idx1)]
+SEQ_POINT = [R(point.noeff1), R(point.keyeq1), R(find.find1), ORD_RANGE, R(slot.slot1), R(point.pair1), R(point.copy1), R(lambda cfg: point.desc1(cfg, which='point')), R(prefix.pfx1), R(prefix.pfx2), R(prefix.pfx3), R(prefix.pfx4), R(lambda cfg: point.type1(cfg, which='point')), R(lambda cfg: nodes.mut1(cfg, parts=('count', 'clear'))), R(nodes.idx1)]
 SEQ_SCAN = [R(seq.cmp3), R(enc.cmp_shape), R(enum1.enum1), R(iterrules.iter2), R(lambda cfg: point.desc1(cfg, which='seek')), R(iterrules.vis1), R(lambda cfg: point.type1(cfg, which='scan')), R(iterrules.stack1), R(iterrules.iter6), R(find.ord1), R(point.pair1)]
 
 
@@ -195,7 +195,7 @@ PROPERTIES['C01'] = {
     'level': 'other',
     'configs': two,
     'multi_rules': [R(lambda ctx, tier: simd_axis_sse(ctx, tier, fns=(slot.slot1, find.find1, lambda cfg: find.ord1(cfg, mode='range'))))],
-    'rules': [R(point.noeff1), R(point.keyeq1), R(point.leaf1), R(point.leaf2), R(point.leaf3), R(point.root1), R(point.split1), R(point.pair1), R(point.copy1), R(point.desc1), R(find.find1), ORD_RANGE, R(slot.slot1), R(prefix.pfx1), R(prefix.pfx2), R(prefix.pfx3), R(lambda cfg: point.type1(cfg, which='point')), R(lambda cfg: nodes.mut1(cfg, parts=('count', 'clear'))), R(nodes.idx1),
+    'rules': [R(point.noeff1), R(point.keyeq1), R(point.leaf1), R(point.leaf2), R(point.leaf3), R(point.root1), R(point.split1), R(point.pair1), R(point.copy1), R(point.desc1), R(find.find1), ORD_RANGE, R(slot.slot1), R(prefix.pfx1), R(prefix.pfx2), R(prefix.pfx3), R(prefix.pfx4), R(lambda cfg: point.type1(cfg, which='point')), R(lambda cfg: nodes.mut1(cfg, parts=('count', 'clear'))), R(nodes.idx1), R(mutex.mx2), R(mutex.mx6),
               R(qsbr.q_free_paths), R(qsbr.q_rotation), R(qsbr.q_barriers), R(lambda cfg: qsbr.q_orphans(cfg, parts=('7', '9'))), R(qsbr.q_tagging), R(qsbr.q_last_out), R(qsbr.q_register_epoch), R(qsbr.q_wrap), R(qstate.qs1), R(qsbr.q_cas),
               advisory(R(lambda cfg: iterrules.sib1_point(cfg, accounting=False))), R(lambda cfg: olcrules.lock6(cfg, kinds=('leaf',))), R(olcrules.lock6b)],
     'technique': 'static analysis: path-sensitive effect flow with callee summaries (result/effect correlation), control-dependence rules (full-key comparison guards), writer/reader expression agreement, abstract interpretation of the node search and key-prefix arithmetic in byte-vector / lane-wise three-valued domains with exhaustively enumerated lengths and counts, sibling differencing db vs olc_db',
@@ -207,7 +207,7 @@ PROPERTIES['C01'] = {
                    'FIND-1 find_child of each node class returns exactly the child stored for the key byte: I4 / I16 by lane-wise three-valued evaluation of the SSE search with child count and match position enumerated and stale slots free, I48 / I256 by term comparison; SLOT-1 I48 files a new child in the first null slot of its pointer array (lane-wise evaluation of the SSE4.2 / AVX2 / scalar search, first null slot enumerated 0..47; FIND-1 / ORD-1 / SLOT-1 are evaluated in the configuration without AVX2 as well - the SSE4.2 branches are dead code in the baseline build); ORD-1 (range form) the insert position of the dense classes lies in 0 .. child count for every node content - no live slot is overwritten; that it is the rank of the new byte (sortedness) matters to ordered enumeration only and is decided under C02 / C09; PAIR-1 every function of the dense classes writes the key array and the child array in lock-step (same target and source slots), so slot i of one always describes slot i of the other. '
                    'DESC-1 the descent of get / insert / remove / seek compares each node prefix with the shifted working copy of the key, shifts it by the prefix length, selects the child by its first byte and shifts by one, in this order, the tracked depth moving in step; COPY-1 the grow / shrink initialisers walk the slot arrays of their source node from slot 0 to the array size; '
                    'SPLIT-1 node splits dispatch on the bytes at the split position (leaf split: k1[depth+L] / shifted_k2[L]; prefix split: prefix[len] read before the cut by len+1, key[depth+len]); CAP-1 / CAP-2 the interval obligations "longest common prefix of two distinct keys <= key_prefix_capacity" at the leaf split and "merged prefix <= capacity" at the collapse hold for 64-bit keys and FAIL for byte-string keys - two genuine defects of the pinned tree, listed in known_findings.json and printed as KNOWN-FINDING (replays triage/d1_long_prefix.cpp, triage/d1b_collapse_overflow.cpp). '
-                   'MUT-1 effect summaries of the per-class mutators: add_to_nonfull stores (count it was given) + 1 into children_count exactly once on every path, remove stores (old count) - 1, the sparse classes clear the slot they free (I48: child_indexes[i] = empty_child and the pointer slot nulled, I256: children[i] = nullptr); IDX-1 std::array subscripts under counting loops stay inside the slot arrays (constant bounds evaluated, child-count bounds must be strict). TYPE-1 a tagged node pointer is reinterpreted as a leaf only where its type tag was tested to be LEAF and as an inner node only where it was tested not to be (control dependence on the tag test, through locals and out-parameters holding the tag). PFX-1 key_prefix::cut / prepend are the specified byte permutations for every combination of lengths and every content of the stale bytes; PFX-2 shared_len is min(first differing byte, clamp); PFX-3 make_u64, which builds the prefix of the inner node replacing a split leaf, reads the existing key from the split depth (k1.subspan(depth) reaches get_u64); UNUSED-1 no span / string-view narrowing (subspan, first, last, substr) has its result discarded. The last clause of the property for the OLC index - a value view stays readable until the caller\'s next quiescent state - rests on QSBR never freeing early, so the QSBR safety generators Q-1,2,3,4,5,7,9,10,11,12,14,17, QS-1 (described under C05) are checked here as well: crossing the orphan lists, for instance, frees a removed leaf one epoch too soon under a reader that still holds its view. '
+                   'MUT-1 effect summaries of the per-class mutators: add_to_nonfull stores (count it was given) + 1 into children_count exactly once on every path, remove stores (old count) - 1, the sparse classes clear the slot they free (I48: child_indexes[i] = empty_child and the pointer slot nulled, I256: children[i] = nullptr); IDX-1 std::array subscripts under counting loops stay inside the slot arrays (constant bounds evaluated, child-count bounds must be strict). TYPE-1 a tagged node pointer is reinterpreted as a leaf only where its type tag was tested to be LEAF and as an inner node only where it was tested not to be (control dependence on the tag test, through locals and out-parameters holding the tag). PFX-1 key_prefix::cut / prepend are the specified byte permutations for every combination of lengths and every content of the stale bytes; PFX-2 shared_len is min(first differing byte, clamp); PFX-4 key_prefix(len, source), the prefix of the new parent of a key-prefix split, is the first len BYTES of the source prefix (byte-vector evaluation of the member initialiser, all length pairs); PFX-3 make_u64, which builds the prefix of the inner node replacing a split leaf, reads the existing key from the split depth (k1.subspan(depth) reaches get_u64); UNUSED-1 no span / string-view narrowing (subspan, first, last, substr) has its result discarded. "Identically for the mutex index": a call of mutex_db returns with the mutex free unless it is a successful get (MX-2 lock handed out exactly on a hit, MX-6 only scope-bound guards) - otherwise the next call issued by the same thread never returns. The last clause of the property for the OLC index - a value view stays readable until the caller\'s next quiescent state - rests on QSBR never freeing early, so the QSBR safety generators Q-1,2,3,4,5,7,9,10,11,12,14,17, QS-1 (described under C05) are checked here as well: crossing the orphan lists, for instance, frees a removed leaf one epoch too soon under a reader that still holds its view. '
                    'SIB-1p (ADVISORY only - differencing two sibling implementations fires on a behaviour-preserving rewrite of one of them, so its reports go into the evidence notes and never into the verdict; the absolute rules above decide) db and olc_db take the same algorithmic decisions (child lookup, prefix comparison, key shifts, leaf match, node creation by class, helper calls; statistics events projected away - they are C10) on every path of get / insert / remove and of the add / remove helpers of every node class.',
     'decides': 'result/effect correlation; full-key-comparison guards; leaf layout agreement and immutability; per-node lookup, insert position and slot pairing; split dispatch bytes; key-prefix arithmetic; db/olc_db algorithm agreement',
     'does_not_decide': 'the map behaviour as a theorem over all operation histories and key sets (that needs an inductive tree invariant - functional verification, outside static analysis); the iterator-style copy loops of the I4-from-I16 shrink beyond PAIR-1',
@@ -265,7 +265,7 @@ PROPERTIES['C03'] = {
                    'per-return summaries through the dispatcher/shim forwarders, effect summaries for protected-field writes) over every OLC function that owns or receives read sections or write guards, both key kinds: '
                    'LOCK-1 no node pointer read under a read section is dereferenced, and no non-restart result returned, before that section is re-validated; '
                    'LOCK-2 every store to a protected field (direct or through callees, index-sensitive for children) happens under an active write guard on the written node, or the node is fresh / obsoleted by this operation; '
-                   'LOCK-3 guards are taken root-to-leaf and nothing waits while a guard is held; LOCK-5 nodes are obsoleted before they are retired; LOCK-9 lock coupling: the section on a child is opened while the section it was reached under is still open; ROLE helper call sites pass matching section/node pairs; LOCK-11 on the failing side of every lock-step test (must_restart / check / try_read_unlock) only the restart result is returned, never a definitive answer; LOCK-12 the root pointer is loaded only after the read section on the root pointer lock has been opened; LOCK-13 the validation half of lock coupling: once a section has been opened on a further node every section already open is stale until validated again (check / try_read_unlock / upgrade), and no tree-modifying step (node mutators, stores into pointer slots, unlock_and_obsolete - may-analysis through by-reference parameters, with per-function entry requirements and per-return summaries) is made and no inode-derived definitive result returned (must-analysis) while an open section is stale. Verdicts are scoped to the callee closure of olc_db get / insert / remove (the iterator is C09). The property also rests on the lock itself and on the sequential algorithm as instantiated for olc_db, so the lock-word premises LW-1..5 (C07) and the OLC-side findings of the sequential rules NOEFF-1, KEYEQ-1, FIND-1, ORD-1, SLOT-1, PAIR-1, COPY-1, DESC-1, PFX-1/2/3, TYPE-1, MUT-1, IDX-1 (C01) are reported here too. '
+                   'LOCK-3 guards are taken root-to-leaf and nothing waits while a guard is held; LOCK-5 nodes are obsoleted before they are retired; LOCK-9 lock coupling: the section on a child is opened while the section it was reached under is still open; ROLE helper call sites pass matching section/node pairs; LOCK-11 on the failing side of every lock-step test (must_restart / check / try_read_unlock) only the restart result is returned, never a definitive answer; LOCK-12 the root pointer is loaded only after the read section on the root pointer lock has been opened; LOCK-13 the validation half of lock coupling: once a section has been opened on a further node every section already open is stale until validated again (check / try_read_unlock / upgrade), and no tree-modifying step (node mutators, stores into pointer slots, unlock_and_obsolete - may-analysis through by-reference parameters, with per-function entry requirements and per-return summaries) is made and no inode-derived definitive result returned (must-analysis) while an open section is stale. Verdicts are scoped to the callee closure of olc_db get / insert / remove (the iterator is C09). The property also rests on the lock itself and on the sequential algorithm as instantiated for olc_db, so the lock-word premises LW-1..5 (C07) and the OLC-side findings of the sequential rules NOEFF-1, KEYEQ-1, FIND-1, ORD-1, SLOT-1, PAIR-1, COPY-1, DESC-1, PFX-1/2/3/4, TYPE-1, MUT-1, IDX-1 (C01) are reported here too. '
                    'Each rule is a necessary condition of linearizability: its breach yields a concrete torn read / lost update under some schedule.',
     'decides': 'OLC protocol conformance (LOCK-1,2,3,5,9,11,12,13, ROLE) on every CFG path of every instantiation of the point operations and their helpers',
     'does_not_decide': 'linearizability of histories as such; value-level correctness of the tree algorithms',
@@ -299,10 +299,10 @@ PROPERTIES['C09'] = {
 PROPERTIES['C14'] = {
     'level': 'other',
     'configs': two,
-    'rules': [olc('LOCK-3'), olc('LOCK-4'), olc('LOCK-7'), R(lock7a), keep_keys(R(lockword.lw6), lambda k: k.startswith('LW-6:upgrade'), 'a unit given back twice or never taken makes an assertion fire - C16 - but leaves no node read-locked'), R(point.lock10), R(lock2_obsoleting), lw_parts(('LW-1:dtor', 'LW-1:deactivate', 'LW-1:op', 'LW-1:store-value', 'LW-1:cas-desired', 'LW-1:caller:unodb::optimistic_lock::atomic_version_type::cas_acquire', 'LW-1:caller:unodb::optimistic_lock::try_upgrade', 'LW-1:caller:unodb::optimistic_lock::write_guard::try_lock_upgrade', 'LW-2', 'LW-3', 'LW-7:unlock|', 'LW-7:write_unlock|', 'LW-7:store:write_unlock|', 'LW-7:try_lock_upgrade', 'LW-7:try_upgrade', 'LW-10'), 'memory orders, whole-word comparison, section snapshots and a missing obsoletion concern linearizability - C03 / C07 - not lock release or waiting')],
+    'rules': [olc('LOCK-3'), olc('LOCK-4'), olc('LOCK-7'), R(lock7a), keep_keys(R(lockword.lw6), lambda k: k.startswith('LW-6:upgrade'), 'a unit given back twice or never taken makes an assertion fire - C16 - but leaves no node read-locked'), R(point.lock10), keep_keys(R(point.lock11), lambda k: 'retry-in-place' in k, 'a definitive answer after a failed lock step is a wrong result - C03 / C09 - not a hang'), R(lock2_obsoleting), lw_parts(('LW-1:dtor', 'LW-1:deactivate', 'LW-1:op', 'LW-1:store-value', 'LW-1:cas-desired', 'LW-1:caller:unodb::optimistic_lock::atomic_version_type::cas_acquire', 'LW-1:caller:unodb::optimistic_lock::try_upgrade', 'LW-1:caller:unodb::optimistic_lock::write_guard::try_lock_upgrade', 'LW-2', 'LW-3', 'LW-7:unlock|', 'LW-7:write_unlock|', 'LW-7:store:write_unlock|', 'LW-7:try_lock_upgrade', 'LW-7:try_upgrade', 'LW-10'), 'memory orders, whole-word comparison, section snapshots and a missing obsoletion concern linearizability - C03 / C07 - not lock release or waiting')],
     'technique': 'static analysis: relational typestate dataflow for lock order / no-wait-while-locked / guard typestate on every CFG path incl. exceptional exits of scope guards; path-sensitive effect flow (obsoletion followed by a restart result)',
     'explanation': 'No-deadlock / no-lock-left-held conditions: LOCK-3 (write ownership is only taken by non-blocking upgrade in root-to-leaf order and no waiting primitive - try_read_lock spin, spin_wait_loop_body - is reached while a guard is active, '
-                   'so no wait-for cycle can contain a writer and readers hold nothing), LOCK-4 (no operation on a guard that is not active: no double unlock / null dereference; guards are scope-bound RAII objects), LOCK-7b (sections are not validated after they ended), LOCK-7a / LW-6 (optimistic read locks are counted per node in assertion-enabled builds - the only sense in which a reader holds a node: no open section is overwritten by assignment, with per-return summaries of the helpers that end or keep the sections they are handed, and check / try_read_unlock / upgrade give the unit back on exactly the paths on which the section forgets its lock - so an operation that returns leaves no node read-locked, which would abort the later operation that frees that node), LOCK-10 (obsoletion is a point of no return: no path marks a node obsolete and then abandons the attempt with a restart result while the node is still linked - otherwise every later operation reaching that node restarts for ever although nobody holds a lock; path-sensitive effect flow with callee summaries), LOCK-2 restricted to functions that obsolete a node (the store that replaces / unlinks the obsoleted node in its parent is made under the active write guard of the parent: a store after the guard is gone can hit a slot that has moved, and the obsolete node stays linked); the lock-word premises of C07 that concern release and waiting - LW-1 (write ownership only through write_guard, which deactivates itself and unlocks exactly when active), LW-2 (is_free / is_write_locked / obsolete encodings: a wrong one makes try_read_lock wait for ever), LW-3 (the try_read_lock wait loop leaves on an obsolete word), LW-7 (unlock really unlocks, the upgrade is the CAS), LW-10 (a saved version tag keeps all 64 bits from rcs.get() through the iterator stack to rehydrate_read_lock: a truncated tag stops validating once the lock word passes 2^32, and the iterator re-seeks for ever although nobody holds a lock) - are reported here too: the anchors of this property include the lock; the memory-order, comparison and snapshot premises (LW-4, 5, 8, 9) are not.',
+                   'so no wait-for cycle can contain a writer and readers hold nothing), LOCK-4 (no operation on a guard that is not active: no double unlock / null dereference; guards are scope-bound RAII objects), LOCK-7b (sections are not validated after they ended), LOCK-7a / LW-6 (optimistic read locks are counted per node in assertion-enabled builds - the only sense in which a reader holds a node: no open section is overwritten by assignment, with per-return summaries of the helpers that end or keep the sections they are handed, and check / try_read_unlock / upgrade give the unit back on exactly the paths on which the section forgets its lock - so an operation that returns leaves no node read-locked, which would abort the later operation that frees that node), LOCK-11, retry part (when must_restart() reports an obsolete node the function returns the restart result and does not loop back to the same lock step: obsolete is final, a retry in place spins for ever although nobody holds a lock), LOCK-10 (obsoletion is a point of no return: no path marks a node obsolete and then abandons the attempt with a restart result while the node is still linked - otherwise every later operation reaching that node restarts for ever although nobody holds a lock; path-sensitive effect flow with callee summaries), LOCK-2 restricted to functions that obsolete a node (the store that replaces / unlinks the obsoleted node in its parent is made under the active write guard of the parent: a store after the guard is gone can hit a slot that has moved, and the obsolete node stays linked); the lock-word premises of C07 that concern release and waiting - LW-1 (write ownership only through write_guard, which deactivates itself and unlocks exactly when active), LW-2 (is_free / is_write_locked / obsolete encodings: a wrong one makes try_read_lock wait for ever), LW-3 (the try_read_lock wait loop leaves on an obsolete word), LW-7 (unlock really unlocks, the upgrade is the CAS), LW-10 (a saved version tag keeps all 64 bits from rcs.get() through the iterator stack to rehydrate_read_lock: a truncated tag stops validating once the lock word passes 2^32, and the iterator re-seeks for ever although nobody holds a lock) - are reported here too: the anchors of this property include the lock; the memory-order, comparison and snapshot premises (LW-4, 5, 8, 9) are not.',
     'decides': 'lock acquisition order, no-wait-while-locked, guard typestate, no restart after obsoletion',
     'does_not_decide': 'freedom from starvation / livelock (the lock header itself says readers can starve)',
 }
@@ -380,7 +380,7 @@ PROPERTIES['C05'] = {
                    'Q-1 requests reach qsbr::deallocate only through ~deferred_requests, or at once only under single-thread mode; Q-2 only the previous-interval list (and, under single-thread mode, the current one; orphans likewise) is handed to the free sink; '
                    'Q-3 in the rotation the previous list is moved out before it receives the current list; Q-4 every rotation is control-dependent on an observed epoch change; '
                    'Q-5 the release barrier precedes every announcement (path-sensitive on the leave-previous-epoch flag), the acquire fence opens orphan handling, orphans are handled exactly once before every epoch-advancing write (at most once per unregister_thread call even across CAS retries), state-word RMWs are acq_rel and loads acquire; '
-                   'Q-7 a quitting / pausing thread hands its previous-interval list to the previous orphan list and its current-interval list to the current one (crossing them ages requests one epoch too fast), every taken orphan list reaches exactly one sink; Q-9 a thread leaves the previous epoch at most once per epoch; Q-12 the epoch is advanced (change_epoch, or the advancing state update of a quitting thread) only when the observed count of threads still in the previous epoch is exactly 1; Q-11 a request joins the current-interval list only on paths where last_seen_epoch was just compared equal to the freshly read global epoch; Q-10 the single-thread-mode decision is taken on the observed old state, never on the state produced by the thread\'s own update; Q-14 / Q-14b a registering thread is counted into the previous epoch exactly when the observed count of that epoch is non-zero or no thread exists (case walk over the four sign classes of the two observed counts), and a thread that could only bump the thread count returns the new epoch; QS-1 the helpers of the packed state word compute exactly the field-wise functions the rules above rely on by NAME (getters return their field, inc / dec move the counts by one, the two epoch-advancing updates set epoch + 1 mod 4 and reset the previous-epoch count to the new thread count) for every value of the three fields - abstract interpretation in a bit-field domain; Q-17 the per-thread quiescent-state counter, whose comparison with zero decides whether the thread has already left the previous epoch, is 64 bits wide in the field and in every parameter it is handed through (a 32-bit counter wraps within minutes and the thread leaves the epoch twice).',
+                   'Q-7 a quitting / pausing thread hands its previous-interval list to the previous orphan list and its current-interval list to the current one (crossing them ages requests one epoch too fast), every taken orphan list reaches exactly one sink; Q-9 a thread leaves the previous epoch at most once per epoch; Q-12 the epoch is advanced (change_epoch, or the advancing state update of a quitting thread) only when the observed count of threads still in the previous epoch is exactly 1; Q-11 a request joins the current-interval list only on paths where last_seen_epoch was just compared equal to the freshly read global epoch; Q-10 the single-thread-mode decision is taken on the observed old state, never on the state produced by the thread\'s own update, and (Q-10b) it is taken in the function that made the state-word update - the mode handed to change_epoch / the orphan handling is single_thread_mode(state observed there), not a value a caller computed from an earlier look at the state word; Q-14 / Q-14b a registering thread is counted into the previous epoch exactly when the observed count of that epoch is non-zero or no thread exists (case walk over the four sign classes of the two observed counts), and a thread that could only bump the thread count returns the new epoch; QS-1 the helpers of the packed state word compute exactly the field-wise functions the rules above rely on by NAME (getters return their field, inc / dec move the counts by one, the two epoch-advancing updates set epoch + 1 mod 4 and reset the previous-epoch count to the new thread count) for every value of the three fields - abstract interpretation in a bit-field domain; Q-17 the per-thread quiescent-state counter, whose comparison with zero decides whether the thread has already left the previous epoch, is 64 bits wide in the field and in every parameter it is handed through (a 32-bit counter wraps within minutes and the thread leaves the epoch twice).',
     'decides': 'Q-1,2,3,4,5,7,9,10,11,12,14,17, QS-1: the local generators of the two-epoch delay',
     'does_not_decide': 'the global invariant "the epoch advances only when every registered thread has quiesced" under all interleavings of register/unregister with an epoch change',
 }
